@@ -64,3 +64,42 @@ Qed.
 
 Theorem built_names_inj ui t t' : build_taxonomy ui t = Ok t' -> kind_names_inj t'.
 Proof. intros H. apply build_taxonomy_ok in H as (_ & H1 & H2). apply accepted_names_inj; assumption. Qed.
+
+(* with finding F12 repaired an accepted taxonomy has no name on two nodes at all *)
+Lemma name_of_valid t p n : name_of t p = Some n -> valid t p = true /\ tax_name t p = n.
+Proof.
+  unfold name_of, valid, tax_name, name_of. destruct (sub t p) as [s|]; cbn; [|discriminate].
+  intros H. inversion H. auto.
+Qed.
+
+Theorem all_names_inj t :
+  NoDup (leaf_names t) -> NoDup (internal_names t) -> no_shared_name t ->
+  forall p q n, name_of t p = Some n -> name_of t q = Some n -> p = q.
+Proof.
+  intros Hl Hi Hs p q n Hp Hq.
+  apply name_of_valid in Hp as (Vp & Np), Hq as (Vq & Nq).
+  destruct (Bool.bool_dec (is_leaf t p) (is_leaf t q)) as [Ek|Ek].
+  - apply (accepted_names_inj t Hl Hi p q Vp Vq Ek). congruence.
+  - exfalso.
+    assert (W : forall a b, valid t a = true -> valid t b = true -> is_leaf t a = true -> is_leaf t b = false ->
+                tax_name t a = tax_name t b -> False).
+    { intros a b Va Vb La Lb En.
+      destruct (valid_node t a Va) as (sa & Ina & Esa), (valid_node t b Vb) as (sb & Inb & Esb).
+      unfold is_leaf in La, Lb. rewrite Esa in La. rewrite Esb in Lb.
+      unfold tax_name, name_of in En. rewrite Esa, Esb in En. cbn in En.
+      apply (Hs (sname sb)).
+      - rewrite (internal_names_nodes t []). apply in_map_iff. exists (b, sb). split; [reflexivity|].
+        apply filter_In. split; [exact Inb|]. unfold lf. cbn. rewrite Lb. reflexivity.
+      - rewrite <- En. rewrite (leaf_names_nodes t []). apply in_map_iff. exists (a, sa). split; [reflexivity|].
+        apply filter_In. split; [exact Ina|]. unfold lf. cbn. exact La. }
+    destruct (is_leaf t p) eqn:Lp, (is_leaf t q) eqn:Lq; try congruence.
+    + apply (W p q); auto. congruence.
+    + apply (W q p); auto. congruence.
+Qed.
+
+Theorem built_all_names_inj ui t t' :
+  build_taxonomy ui t = Ok t' -> forall p q n, name_of t' p = Some n -> name_of t' q = Some n -> p = q.
+Proof.
+  intros H. pose proof (build_taxonomy_no_shared ui t t' H) as Hs. apply build_taxonomy_ok in H as (_ & H1 & H2).
+  apply all_names_inj; assumption.
+Qed.
